@@ -167,6 +167,7 @@ def run(ctx):
             samples.append({"graph": {k: g[k] for k in ("nodes", "bound", "entrypoints", "selected")}, "reported": spec})
         i += 1
     n_eval += nested_part(ctx, dist, nontrivial, batch, N, cases_dbg, i)
+    n_eval += derived_after_select_run_part(ctx)
     n_eval += bound_output_part(ctx, dist)
     res = batch.run()
     if res["error"]:
@@ -182,6 +183,49 @@ def run(ctx):
              "non-trivial = >=3 nodes and at least one of bind/entrypoint/select/cycle in play",
         distribution=dist, samples=samples, traces_validated_against_impl=n_eval, disagreements_checked=res["n"])
     ctx.assumptions += ["calls supply graph inputs only (internal overrides and bound output names are outside this check; see known findings)"]
+
+
+def derived_after_select_run_part(ctx):
+    """A graph is RUN with a run-time select, then graphs are derived from it (bind / unbind) and run with the same select: the
+    derived graph's own contract applies - all its required inputs are sufficient, each of them is necessary."""
+    from hypergraph import Graph, SyncRunner
+    from hypergraph.exceptions import MissingInputError
+    from hypergraph.nodes import FunctionNode
+    rng = ctx.rng
+    n = 0
+    for _ in range(ctx.n(6, 40)):
+        def scale(x, factor):
+            return x * factor
+
+        def shift(scaled, offset):
+            return scaled + offset
+        g = Graph([FunctionNode(scale, name="scale", output_name="scaled"), FunctionNode(shift, name="shift", output_name="shifted")])
+        sel = rng.choice(["scaled", ["scaled"], ["shifted"]])
+        r = SyncRunner()
+        r.run(g, {"x": 1, "factor": 2, "offset": 3}, select=sel)                       # fills whatever is remembered per selection
+        b = g.bind(factor=10)
+        u = b.unbind("factor")
+        for label, G, omit_ok, omit_bad in (("bind(factor=10)", b, "factor", "x"), ("bind then unbind", u, None, "factor")):
+            full = {"x": 1, "factor": 2, "offset": 3}
+            need = {k: v for k, v in full.items() if k in G.inputs.required} if sel != ["shifted"] or True else full
+            if sel in ("scaled", ["scaled"]):
+                need.pop("offset", None)
+            case = {"family": "derived_after_select_run", "derivation": label, "select": repr(sel)}
+            try:
+                r.run(G, dict(need), select=sel)
+            except Exception as e:  # noqa: BLE001
+                ctx.violation("oracle", f"{label}: all required inputs {sorted(need)} supplied (select={sel!r}), yet the call is rejected: {type(e).__name__}: {str(e)[:100]}", case=case)
+            less = {k: v for k, v in need.items() if k != omit_bad}
+            if omit_bad in need:
+                try:
+                    r.run(G, less, select=sel)
+                    ctx.violation("oracle", f"{label}: required input {omit_bad!r} omitted but the call was accepted (select={sel!r})", case=case)
+                except MissingInputError:
+                    pass
+                except Exception as e:  # noqa: BLE001
+                    ctx.violation("oracle", f"{label}: omitting {omit_bad!r} raised {type(e).__name__} instead of MissingInputError", case=case)
+            n += 2
+    return n
 
 
 def nested_part(ctx, dist, nontrivial, batch, N, cases_dbg, i0):
